@@ -488,3 +488,112 @@ def run_unit_last(repo, res, modules=None):
                             f'attached to it (line {q[st.targets[0].value.id]}): for Quantity/NDData input this raises or mixes units, '
                             f'while the same call on the plain array works', {}))
     return n
+
+
+def apply_specs(repo, res, rows, rule='SPEC'):
+    """Declarative specs.  rows: (function fullname, kind, python text, meaning) with kind
+    'stmt'  - some statement of the function has the normal form of the given statement text
+    'ret'   - every returned value has the normal form of the text (locals inlined or raw); several accepted texts separated by ' ||| '
+    'test'  - some `if`/`while`/ternary test of the function has the normal form of the text
+    'call'  - some call in the function has the normal form of the text"""
+    from ..spec import nf_stmt, returns_match
+    from ..expr import nf, nf_text
+    for fullname, kind, text, meaning in rows:
+        f = repo.functions.get(fullname)
+        if f is None:
+            raise AnalysisError(f'vanished anchor: {fullname}')
+        if kind == 'stmt':
+            want = nf_stmt(ast.parse(text).body[0])
+            expect_stmt(res, rule, f, want, meaning)
+        elif kind == 'ret':
+            returns_match(repo, res, rule, fullname, [t.strip() for t in text.split('|||')], meaning)
+        elif kind in ('test', 'call'):
+            want = nf_text(text)
+            if kind == 'test':
+                pool = [n.test for n in ast.walk(f.node) if isinstance(n, (ast.If, ast.While, ast.IfExp, ast.Assert))]
+            else:
+                pool = [n for n in ast.walk(f.node) if isinstance(n, ast.Call)]
+            ok = any(_safe_nf_expr(t) == want for t in pool)
+            res.oblige(rule, f'{f.qualname}: {meaning}', ok, nontrivial=True, sample={'function': fullname, 'want': want})
+            if not ok:
+                res.add(Finding(rule, fullname, meaning, f.loc,
+                                f'{f.qualname}: {meaning} - no {"condition" if kind == "test" else "call"} with normal form `{want}` '
+                                f'(found: {[_safe_nf_expr(t) for t in pool][:6]})', {}))
+        else:
+            raise AnalysisError(f'unknown spec kind {kind}')
+
+
+def _safe_nf_expr(e):
+    from ..expr import nf
+    try:
+        return nf(e)
+    except Exception:
+        return None
+
+
+_SEGM_ARRAYS = ('self._data', 'self._segment_img', 'self._segment_data', 'self.data', 'segment_img.data', 'self._segment_img.data')
+
+
+def run_label_eq(repo, res, modules):
+    """A bounding-box cutout of a label array holds pixels of other labels: inside a loop over (label, slices) pairs every
+    use of `<label array>[slices]` (or of the cutout variable paired with `label` by zip) is an operand of a comparison with `label`."""
+    n = 0
+    for f in repo.functions.values():
+        if f.module.name not in modules:
+            continue
+        loops = [l_ for l_ in ast.walk(f.node) if isinstance(l_, (ast.For, ast.comprehension))
+                 and isinstance(l_.target, ast.Tuple) and any(isinstance(e, ast.Name) and e.id == 'label' for e in l_.target.elts)]
+        for lp in loops:
+            names = [e.id for e in lp.target.elts if isinstance(e, ast.Name)]
+            slc_names = {x for x in names if x in ('slices', 'slc', 'slice_')}
+            cut_names = {x for x in names if x in ('segm', 'segm_cutout', 'segment_cutout')}
+            if not slc_names and not cut_names:
+                continue
+            scope = lp if isinstance(lp, ast.For) else getattr(lp, '_parent', None)
+            uses = []
+            for nd in ast.walk(scope):
+                if isinstance(nd, ast.Subscript) and isinstance(nd.slice, ast.Name) and nd.slice.id in slc_names \
+                        and unparse(nd.value, 0) in _SEGM_ARRAYS:
+                    uses.append(nd)
+                if isinstance(nd, ast.Name) and nd.id in cut_names and isinstance(nd.ctx, ast.Load):
+                    uses.append(nd)
+            for u_ in uses:
+                par = getattr(u_, '_parent', None)
+                ok = isinstance(par, ast.Compare) and len(par.ops) == 1 and isinstance(par.ops[0], (ast.Eq, ast.NotEq)) \
+                    and any(isinstance(x, ast.Name) and x.id == 'label' for x in [par.left] + par.comparators)
+                n += 1
+                res.oblige('LABEL-EQ', f'{f.qualname}: `{unparse(u_, 50)}` is compared with `label` before it is counted or masked', ok,
+                           nontrivial=True, sample={'function': f.fullname, 'use': unparse(getattr(u_, "_parent", u_), 80)})
+                if not ok:
+                    st = enclosing_stmt(u_)
+                    res.add(Finding('LABEL-EQ', f.fullname, norm_stmt_text(st), f'{f.module.relpath}:{u_.lineno}',
+                                    f'{f.qualname}: `{unparse(u_, 50)}` (the label array inside this label\'s bounding box) is used without '
+                                    f'comparing it with `label` in `{norm_stmt_text(st)}`: pixels of other labels inside the box are taken '
+                                    f'for this label', {}))
+    return n
+
+
+_ROUND_CALLS = {'round', 'np.round', 'np.rint', 'np.around', 'np.round_', 'numpy.round'}
+
+
+def run_round(repo, res, modules):
+    """Pixel indices are rounded half-up (`py2intround`, floor(x + 0.5)): round()/np.round/np.rint round half to even, which makes
+    the chosen pixel depend on the parity of the coordinate and breaks covariance under integer shifts."""
+    n = 0
+    for m in sorted(modules):
+        repo.get_module(m)
+        bad = []
+        for f in repo.functions.values():
+            if f.module.name != m:
+                continue
+            for nd in ast.walk(f.node):
+                if isinstance(nd, ast.Call) and unparse(nd.func, 0) in _ROUND_CALLS:
+                    bad.append((f, nd))
+        n += 1
+        res.oblige('ROUND', f'{m}: no round-half-to-even call', not bad, nontrivial=True)
+        for f, nd in bad:
+            st = enclosing_stmt(nd)
+            res.add(Finding('ROUND', f.fullname, norm_stmt_text(st), f'{f.module.relpath}:{nd.lineno}',
+                            f'{f.qualname}: `{unparse(nd, 60)}` rounds half to even; pixel indices are rounded half-up in this package '
+                            f'(py2intround / floor(x + 0.5)) so that results shift exactly with integer translations', {}))
+    return n
